@@ -41,8 +41,13 @@ func init() {
 		"vrt_FSLog":    vrtFSLog,
 		"vrt_NewTCPConn": vrtNewTCPConn,
 		"vrt_ConnWrites": vrtConnWrites,
+		"vrt_ConnPushRead": vrtConnPushRead,
+		"vrt_ConnStart":    stubNop,
+		"vrt_ConnWritten":  vrtConnWritten,
+		"vrt_ConnFailWrites": vrtConnFailWrites,
 		"vrt_IsOpaque":  vrtIsOpaque,
 		"vrt_Fail":      vrtFail,
+		"vrt_ClockFrozen": func(ex *Exec, fn *ssa.Function, args []Value) []Value { ex.clockFrozen = true; return nil },
 		"vrt_DeepEqual": vrtDeepEqual,
 	}
 }
@@ -424,4 +429,35 @@ func vrtDeepEqual(ex *Exec, fn *ssa.Function, args []Value) []Value {
 		return []Value{ex.ts.ff}
 	}
 	return []Value{ex.deepEq(a.v, b.v, a.t, 0)}
+}
+
+// vrt_ConnPushRead(conn, data): the next Read on conn returns data (then EOF when the script ends).
+func vrtConnPushRead(ex *Exec, fn *ssa.Function, args []Value) []Value {
+	cs := connOf(ex, args[0])
+	b := args[1].(SliceV)
+	var snap SliceV
+	if b.obj != nil {
+		snap = ex.newByteSlice(ex.sliceBytes(b), 0, "conn.script")
+	} else {
+		snap = ex.newByteSlice(nil, 0, "conn.script")
+	}
+	cs.reads = append(cs.reads, snap)
+	return nil
+}
+
+// vrt_ConnWritten(conn) []byte: everything written to conn so far, concatenated.
+func vrtConnWritten(ex *Exec, fn *ssa.Function, args []Value) []Value {
+	cs := connOf(ex, args[0])
+	var all []*Term
+	for _, w := range cs.writes {
+		if w.obj != nil {
+			all = append(all, ex.sliceBytes(w)...)
+		}
+	}
+	return []Value{ex.newByteSlice(all, 0, "conn.written")}
+}
+
+func vrtConnFailWrites(ex *Exec, fn *ssa.Function, args []Value) []Value {
+	connOf(ex, args[0]).failWrites = true
+	return nil
 }
